@@ -54,7 +54,7 @@ type Read struct {
 // Call the function with the arguments provided.
 func (f *Read) Call(s *slip.Scope, args slip.List, depth int) slip.Object {
 	slip.CheckArgCount(s, depth, f, args, 0, 3)
-	r := s.Get("*standard-input*").(io.Reader)
+	r := s.ReaderVar("*standard-input*", depth)
 	eofp := true
 	var eofv slip.Object
 
